@@ -168,6 +168,10 @@ def check_atomic_value(run, cls, v, ctx_numbers):
         run.count("ctor_refused")
         run.seen("ctor_refusal_types", type(err).__name__)
         return
+    if kind == R.OBJID and isinstance(v, int) and not isinstance(v, bool) and not (0 <= v <= 0xFFFFFFFF):
+        # a word that does not fit the 10 + 22 bits cannot denote an object identifier: accepting it means wrapping it
+        run.violation("constructor-altered-value/object-identifier-word-out-of-range", dict(wit, accepted=repr(obj.value)[:80]))
+        return
     try:
         m = norm_value(cls, obj.value)
     except Exception as err:
@@ -236,6 +240,10 @@ def check_atomic_value(run, cls, v, ctx_numbers):
         run.count("decodes_compared")
         if not same(kind, m2, m):
             run.violation("decode-differs/app/kind%d" % kind, dict(wit, octets=octets[:40], decoded=repr(m2)[:200]))
+            return
+        if kind == R.ENUM and isinstance(v, str) and isinstance(obj2.value, str) and obj2.value != v:
+            # two names of one enumeration share a number: the name does not survive
+            run.violation("enumeration-name-decodes-to-another-name", dict(wit, octets=octets[:16], decoded=obj2.value))
             return
         # generic dispatch by application tag number
         obj3 = t2.app_to_object()
